@@ -979,10 +979,12 @@ class OdeSystem(object):
         events, is_terminal, direction, last_occurrence, requires_dstate = prepare_events(events, self.__y[0])
         if events is not None:
             # a crossing recorded by an earlier call at the point where this call starts is the same crossing, not a new one
+            # (only there: a run that comes back through an older root crosses it again)
             for ev_idx, ev in enumerate(events):
                 for prev_idx in range(len(self.__events) - 1, -1, -1):
                     if self.__events[prev_idx].event is ev:
-                        last_occurrence[ev_idx] = prev_idx
+                        if D.ar_numpy.abs(self.__events[prev_idx].t - self.__t[self.counter]) <= D.epsilon(self.__y[0].dtype) ** 0.7:
+                            last_occurrence[ev_idx] = prev_idx
                         break
 
         implicit_integration = False
